@@ -25,11 +25,11 @@ def seqs(alphabet, k, first=None, last=None, must=(), min_count=None):
     return out
 
 
-def query(prop, pipe, ops, timeout=280, witness_delivered=0, sample=False, replay=False, count_mgrs=False):
-    name = "%s_%s" % (PIPES[pipe], "-".join(map(str, ops)))
+def query(prop, pipe, ops, timeout=280, witness_delivered=0, sample=False, replay=False, count_mgrs=False, segmented=0):
+    name = "%s%s_%s" % (PIPES[pipe], ("_seg%d" % segmented) if segmented else "", "-".join(map(str, ops)))
     return Query(name=name, harness="pipe_seq.c",
                  defines=["PIPE=%d" % pipe, "OPS=" + ",".join(map(str, ops)), "WITNESS_DELIVERED=%d" % witness_delivered] +
-                 (["ENV_COUNT_MGRS"] if count_mgrs else ["VERIF_POOL_NO_MGR_REF"]),
+                 (["ENV_COUNT_MGRS"] if count_mgrs else ["VERIF_POOL_NO_MGR_REF"]) + (["SEGMENTED=%d" % segmented] if segmented else []),
                  shims=SHIMS, unwind=max(8, len(ops) + 2), unwindset=UW, fp_restrict=True, timeout=timeout, leak=True, replay_witness=replay,
                  sample={"pipe": PIPES[pipe], "operations": [OPN[o] for o in ops] + ["release"],
                          "symbolic": "payload octets (3 per buffer), option values"} if sample else None)
